@@ -877,6 +877,7 @@ const JUNK: &[&str] = &[
     "#", "#\\", "\"abc", "#x", "#e", "#q", "|", "@", ",@", "#;", "#|", "|#", "\\", "#true", "#false", "#\\spac", "#\\xZZ", "\"\\xZZ;\"", "\"\\x41\"",
     "1e+3", "+inf.0", "....", ".5.", "1.2.3", "a;b", "#\\x110000", "#\\xD800", "#u8(", "#0=", "#0#", "#\\", "\"\\", "\"\\\"", "#(", "#xZZ", "#x(", "#b2", "#e#", "#\\x;",
     // values beyond a machine word, odd prefix orders and cases, non-finite and huge exact conversions
+    "-2147483648/-1", "1/-2147483648", "1/-2", "#e1/-3", "2147483648/2147483647", "#x-80000000/-1", "1/+2",
     "foo\\", "x\\ y", "(a b\\)", "1\\", "\u{feff}(a)", "\u{feff}1 2",
     "#\\x100000000", "#\\xFFFFFFFFFFFF", "#\\x0000000041", "#\\x-1", "\"\\x100000000;\"", "\"\\xFFFFFFFFFFFFFFFFF;\"", "a\\x100000000;b", "|\\x100000000;|",
     "#xFFFFFFFFFFFFFFFFFFFFFFFF", "99999999999999999999999999999999999999999", "1e400", "-1e400", "1e-400", "#e1e39", "#e-1e39", "#e1e400", "#e#d1e39", "#i1/0",
